@@ -312,6 +312,16 @@ def bnd_tree(body):
     return stmt(body)
 
 
+def bnd_case(c):
+    nm, lb, ub = c
+    if lb == 'compl':
+        return '.compl'
+    m = {'read': '.read', 'neg-inf': '.negInf', 'pos-inf': '.posInf', 'same-as-lb': '.sameAsLb'}
+    if lb not in m or ub not in m or lb == 'same-as-lb':
+        raise TranslateError('ReadBounds case %s: lb/ub source %s/%s' % (nm, lb, ub))
+    return '(.range %s %s)' % (m[lb], m[ub])
+
+
 def src_function(text, header_re, what):
     m = re.search(header_re, text)
     if not m:
@@ -456,6 +466,11 @@ def main(repo, out, work):
             if not order_ok:
                 raise TranslateError('ReadBounds: %s reads ub before lb' % nm)
             cases.append((nm, src('lb'), src('ub')))
+    flat = re.sub(r'\s+', ' ', re.sub(r'//[^\n]*', '', rb))
+    if not re.search(r'reader_\.ReadTillEndOfLine\(\); double lb = 0, ub = 0; BoundHandler bh\(\*this\); int num_bounds = bh\.num_items\(\);', flat) or \
+            not re.search(r'for \(int i = 0; i < num_bounds; \+\+i\) \{ switch', flat) or \
+            not re.search(r'\} reader_\.ReadTillEndOfLine\(\); bh\.SetBounds\(i, lb, ub\); \} \}$', flat):
+        raise TranslateError('ReadBounds: the loop around the switch (skip line, per item: switch, skip line, SetBounds(i, lb, ub)) changed shape')
     if not re.search(r"switch \(reader_\.ReadChar\(\) - '0'\)", rb):
         raise TranslateError('ReadBounds no longer switches on ReadChar() - \'0\'')
 
@@ -490,6 +505,8 @@ def main(repo, out, work):
           'def aprFormats : List String := [\n  %s]' % ',\n  '.join(lean_str(s) for s in allf), '',
           '/-- NLReader::ReadBounds: `enum BoundType` in order = the digit after which each case is selected; where lb and ub come from -/',
           'def readBounds : List (String × String × String) := [\n  %s]' % ',\n  '.join('(%s, %s, %s)' % tuple(lean_str(x) for x in c) for c in cases),
+          '/-- the same as an executable table: entry d = what `case d` of the switch on `ReadChar() - \'0\'` does -/',
+          'def readBoundsTable : List BndCase := [%s]' % ', '.join(bnd_case(c) for c in cases),
           '', 'end MpVerif.Gen.C03Writer', '']
     text = '\n'.join(L)
     if not (os.path.exists(out) and open(out).read() == text):
